@@ -198,24 +198,60 @@ impl Emitter {
     }
 
     pub fn emit_start_event(&self, state: &Message) {
+        #[cfg(feature = "verif")]
+        crate::verif::push(crate::verif::Event::Emit {
+            seq: crate::verif::next_seq(),
+            what: "start",
+            id: state.id.clone(),
+            pid: state.pid.clone(),
+            tid: state.tid.clone(),
+            state: state.state.as_ref().to_string(),
+        });
         debug!("emit_start_event: {:?}", state);
         let e = Event::new(&self.runtime.read().unwrap(), state);
         dispatch_key_event!(self, starts, &e);
     }
 
     pub fn emit_complete_event(&self, state: &Message) {
+        #[cfg(feature = "verif")]
+        crate::verif::push(crate::verif::Event::Emit {
+            seq: crate::verif::next_seq(),
+            what: "complete",
+            id: state.id.clone(),
+            pid: state.pid.clone(),
+            tid: state.tid.clone(),
+            state: state.state.as_ref().to_string(),
+        });
         debug!("emit_complete_event: {:?}", state);
         let e = Event::new(&self.runtime.read().unwrap(), state);
         dispatch_key_event!(self, completes, &e);
     }
 
     pub fn emit_message(&self, msg: &Message) {
+        #[cfg(feature = "verif")]
+        crate::verif::push(crate::verif::Event::Emit {
+            seq: crate::verif::next_seq(),
+            what: "message",
+            id: msg.id.clone(),
+            pid: msg.pid.clone(),
+            tid: msg.tid.clone(),
+            state: msg.state.as_ref().to_string(),
+        });
         debug!("emit_message: {:?}", msg);
         let e = Event::new(&self.runtime.read().unwrap(), msg);
         dispatch_key_event!(self, messages, &e);
     }
 
     pub fn emit_error(&self, state: &Message) {
+        #[cfg(feature = "verif")]
+        crate::verif::push(crate::verif::Event::Emit {
+            seq: crate::verif::next_seq(),
+            what: "error",
+            id: state.id.clone(),
+            pid: state.pid.clone(),
+            tid: state.tid.clone(),
+            state: state.state.as_ref().to_string(),
+        });
         debug!("emit_error: {:?}", state);
         let e = Event::new(&self.runtime.read().unwrap(), state);
         dispatch_key_event!(self, errors, &e);
